@@ -185,6 +185,11 @@ def run_case(case, tier="quick"):
                             b = pd.eval_closed_form(expr, n, subs)
                         except ValueError:
                             continue
+                        except KeyError:
+                            # an answer in terms of a generated symbol (a condition abstracted to Bernoulli(_prob) when type inference
+                            # is switched off) is a partial result, not a number that could be compared
+                            refusals[vec] = refusals.get(vec) or "answer_with_generated_symbol"
+                            break
                         if exact:
                             ok = pd.values_equal(b, a, 40) if isinstance(a, Fraction) else pd.values_equal(a, Fraction(0), 40) and pd.values_equal(b, Fraction(0), 40) or \
                                 abs(complex(sympy.N(sympy.sympify(b) - sympy.sympify(a), 50))) <= 1e-40 * max(1.0, abs(complex(sympy.N(sympy.sympify(a), 30))))
